@@ -128,6 +128,30 @@ def rule_alias_single_assignment(repo: Repo, chk: Check, rule: str, floor_alias=
                               f"a variable assigned twice would be folded to its first value", None, f"{cp.path}:{c.lineno} in {fn.qual}")
     if found < 1:
         raise AnalysisError(f"{rule}: constant propagation through variables (loop over nodes_reading calling set_constant) not found")
+    # 'not is_overwritten' counts the writes that set_name_written recorded, and that function ignores nodes marked unused: the pass
+    # that forwards the constant must skip those nodes too, or an assignment in dead code is forwarded over the live one
+    snw = cp.func("CodeData.set_name_written")
+    ignores_unused = any(isinstance(i, ast.If) and "is_used" in norm(i.test) and any(isinstance(x, ast.Return) for x in i.body) for i in ast.walk(snw))
+    if ignores_unused:
+        for fn in cp.funcs.values():
+            cls = getattr(fn, "cls", None)
+            if cls is None or not any(isinstance(lp, ast.For) and isinstance(lp.iter, ast.Attribute) and lp.iter.attr == "nodes_reading"
+                                      and any(isinstance(c, ast.Call) and isinstance(c.func, ast.Attribute) and c.func.attr == "set_constant" for c in ast.walk(lp))
+                                      for lp in ast.walk(fn)):
+                continue
+            # the value of skip_unused_nodes that this class sees (own body, then its bases)
+            val, owner = None, None
+            for m_, c_ in repo.class_mro(cp, cls):
+                for st in c_.body:
+                    tgt = st.targets[0] if isinstance(st, ast.Assign) and len(st.targets) == 1 else (st.target if isinstance(st, ast.AnnAssign) else None)
+                    if isinstance(tgt, ast.Name) and tgt.id == "skip_unused_nodes" and getattr(st, "value", None) is not None and val is None:
+                        val, owner = st.value, c_.name
+            if val is None:
+                raise AnalysisError(f"{rule}: skip_unused_nodes is not defined for {cls.name}")
+            chk.judge(rule, f"compile_pass:{cls.name}:the forwarding pass skips the nodes whose writes are not counted", isinstance(val, ast.Constant) and val.value is True,
+                      f"{cls.name} forwards single-assignment constants to their readers with skip_unused_nodes = {norm(val)} (from {owner}), while set_name_written does not count "
+                      f"assignments in unused nodes: 'RATE = 10; if False: RATE = 1000' still counts as assigned once, the dead assignment is visited and its constant "
+                      f"replaces the live value at every read", {"skip_unused_nodes": norm(val), "defined_in": owner}, f"{cp.path}:{cls.lineno}")
 
 
 def _alias_source_clause(chk, rule, fn, st, tgt, recv, key, where):
